@@ -1,16 +1,22 @@
 --------------------------- MODULE TeardownTrace ---------------------------
-(* Trace validation for C16.  One trace = one run of two (three) real bumble stacks: a
-   procedure of the catalogue, a cut at message boundary k, 120 virtual seconds, then the
-   measured tables and registries.  Logged events (all fields always present):
+(* Trace validation for C16.  One trace = one run of three real bumble stacks: a procedure of
+   the catalogue (one that completes or one that ends in failure), a cut at message boundary k,
+   120 virtual seconds, then the measured tables and registries; after a disconnection cut the
+   link is established again (second incarnation, same handle), the same kind of procedure runs
+   on it and tables and registries are measured a second time.
+   Logged events (all fields always present):
 
-     est(c)                          -> CtrlEstablish(c)
-     call(o, d, c)                   -> Call(o, d, c, "none")
+     est(c)                          -> CtrlEstablish(c)     (again: the next incarnation of c)
+     call(o, d, c, x)                -> Call(o, d, c, "none"); x = "result": the harness' peer is
+                                        willing and the link is fresh - the operation has to complete
      cut(kind = "disc", d, c)        -> RequestDisconnect(d, c)
-     cut(kind = "loss", d)           -> TransportLoss(d)
+     cut(kind = "loss", d)           -> TransportLoss(d)     (Host.on_transport_lost() called directly,
+                                        or a real transport source told that the transport died)
      ret(o, out)                     -> Ret(o, out)          out = "result" | "error"
-     quiesce(S = still pending ops)  -> Quiesce, with the pending list judged by PendingOk
+     quiesce(S = still pending ops)  -> Quiesce, with the pending list judged by PendingOk / Stalled
      tables(d, layer, S)             -> judged by TableOk
-     registry(d, r, S)               -> judged by RegOk
+     registry(d, R)                  -> all registries of stack d, R = <<[r |-> name, S |-> entries]>>, each
+                                        judged by RegOk; entries = pairs <<connection, incarnation>>
 
    What the controllers and hosts do between the logged events (Disconnect, RefuseRequest, PeerTerm,
    HostEvt) is not logged: the spec takes those steps on its own, every interleaving of them
@@ -18,16 +24,19 @@
    is propagated.  The judgement of the observations is accumulated in `bad` instead of
    blocking the trace, so that one verdict names every clause that fails:
        <<"pending", o>>                 operation o has not ended and may not wait any more
+       <<"stalled", o>>                 operation o has not ended although its link is up end to end
+       <<"outcome", o>>                 operation o had to complete (x = "result") and ended in error
        <<"tables", d, layer, how>>      how = "stale" (lists a closed connection) | "missing"
-       <<"registry", d, r>>             registry r of stack d names a closed connection
+       <<"registry", d, r, X>>          registry r of stack d names a closed connection (or a closed
+                                        incarnation of a connection whose handle is live again): X = those entries
    A trace is accepted iff some interleaving of the unlogged steps reaches its end with
    bad = {}.  Unknown handles are logged as 9, which is never a live connection.           *)
 EXTENDS Teardown, Json, IOUtils, TLCExt
 
 Traces == JsonDeserialize(IOEnv.TRACE_FILE)
 
-VARIABLES tid, l, bad
-tvars == <<vars, tid, l, bad>>
+VARIABLES tid, l, bad, expect
+tvars == <<vars, tid, l, bad, expect>>
 
 T  == Traces[tid]
 Ev == T[l]
@@ -37,13 +46,14 @@ SetOf(s) == {s[i] : i \in 1..Len(s)}
 Internal ==
     /\ \/ \E d \in Devs : HostEvt(d)
        \/ \E d \in Devs, c \in Conns : Disconnect(d, c) \/ RefuseRequest(d, c) \/ PeerTerm(d, c)
-    /\ UNCHANGED <<tid, l, bad>>
+    /\ UNCHANGED <<tid, l, bad, expect>>
 
 TrQuiesce ==
     /\ Propagated
     /\ quiesced' = TRUE
-    /\ UNCHANGED <<live, reg, ops, evq, term, want, lost, nest, ncut>>
+    /\ UNCHANGED <<live, inc, reg, ops, evq, term, want, lost, nest, ncut>>
     /\ bad' = bad \cup {<<"pending", ToString(o)>> : o \in {p \in OpIds : ops[p].st \in {"waiting", "released"} /\ ~PendingOk(p)}}
+                  \cup {<<"stalled", ToString(o)>> : o \in {p \in OpIds : Stalled(p)}}
     \* the harness lists exactly the calls that have not returned
     /\ SetOf(Ev.S) = {p \in OpIds : ops[p].st \in {"waiting", "released"}}
 
@@ -59,7 +69,8 @@ TrTables ==
 TrRegistry ==
     /\ Propagated
     /\ UNCHANGED vars
-    /\ bad' = IF RegOk(Ev.d, SetOf(Ev.S)) THEN bad ELSE bad \cup {<<"registry", Ev.d, Ev.r>>}
+    /\ bad' = bad \cup {<<"registry", Ev.d, Ev.R[i].r, {x \in SetOf(Ev.R[i].S) : ~EntryOk(Ev.d, x)}>> :
+                           i \in {j \in 1..Len(Ev.R) : ~RegOk(Ev.d, SetOf(Ev.R[j].S))}}
 
 Logged ==
     /\ l <= Len(T)
@@ -71,11 +82,12 @@ Logged ==
           /\ Ret(Ev.o, Ev.out)
           /\ Ev.out \in {"result", "error"}
           /\ quiesced' = FALSE
-          /\ UNCHANGED <<live, reg, evq, term, want, lost, nest, ncut>>
-          /\ bad' = bad
+          /\ UNCHANGED <<live, inc, reg, evq, term, want, lost, nest, ncut>>
+          /\ bad' = IF Ev.o \in expect /\ Ev.out # "result" THEN bad \cup {<<"outcome", ToString(Ev.o)>>} ELSE bad
        \/ Ev.e = "quiesce" /\ TrQuiesce
        \/ Ev.e = "tables" /\ TrTables
        \/ Ev.e = "registry" /\ TrRegistry
+    /\ expect' = IF Ev.e = "call" /\ Ev.x = "result" THEN expect \cup {Ev.o} ELSE expect
     /\ l' = l + 1
     /\ tid' = tid
 
@@ -91,11 +103,11 @@ Stuck ==
     /\ l <= Len(T)
     /\ ~ENABLED Step
     /\ PrintT(<<"REJECT", tid, l, Ev,
-                [live |-> live, lost |-> lost, evq |-> evq, term |-> term, want |-> want,
+                [live |-> live, inc |-> inc, lost |-> lost, evq |-> evq, term |-> term, want |-> want,
                  ops |-> [o \in OpIds |-> ops[o].st], bad |-> bad]>>)
     /\ UNCHANGED tvars
 
-TraceInit == Init /\ tid \in 1..Len(Traces) /\ l = 1 /\ bad = {}
+TraceInit == Init /\ tid \in 1..Len(Traces) /\ l = 1 /\ bad = {} /\ expect = {}
 TraceNext == Step \/ Done \/ Stuck
 TraceSpec == TraceInit /\ [][TraceNext]_tvars
 =============================================================================
